@@ -349,7 +349,7 @@ def main(argv):
     rng = random.Random(a.seed * 1000003 + 17)
     try:
         if a.tier == "quick":
-            cfgs = (a.configs.split(",") if a.configs else ["default", "w32"])
+            cfgs = (a.configs.split(",") if a.configs else ["default", "w32", "m51"])
             reps = max(1, int(2 * a.scale))
         else:
             cfgs = (a.configs.split(",") if a.configs else ALL_CONFIGS)
